@@ -973,6 +973,7 @@ func main() {
 		_ = syscall.Dup3(int(null.Fd()), 2, 0)
 	}
 	r := vx.Start("C09", "posting")
+	r.Sum.Shards = []string{} // a replay that only fails the oracle emits no Coq case: keep the JSON member a list
 	r.Cases("From FL Require Import Numscript.Corr Posting.Model.\nClose Scope Z_scope.\nOpen Scope nat_scope.\n", "pcase", 300)
 	r.Sum.Rule = "posting lists (1..30 postings over 1..25 accounts: repeated accounts and amounts, @world on either side, self-transfers, " +
 		"chains spending what an earlier posting delivered, zero and >64-bit amounts, every valid address/asset form and a malformed stream) x " +
